@@ -34,7 +34,7 @@ def gen(seed, tier):
                 fl = "threading"
             else:
                 fl = rng.choice(FL)
-            steps = [["block"]] if fl == "threading" else rng.choice([[["hb", 0.25, None]], [["block"]]])
+            steps = [["block"]] if fl == "threading" else rng.choice([[["hb", 0.25, None]], [["block"]], [["block"]], [["swallow", rng.choice([1, 2])]]])
             spec = {"id": pid, "flavour": fl, "phase": ph, "steps": steps, "via": rng.choice(["queued", "service-pre"]) if pop != "adopting" else "adopt"}
             if fl == "trio" and rng.random() < 0.3:
                 spec["cleanup_async"] = rng.choice([0.1, 0.5])
